@@ -771,6 +771,12 @@ func (self *AofChannel) Push(dbId uint8, lock *Lock, commandType uint8, lockComm
 	}
 	if commandType == protocol.COMMAND_LOCK {
 		aofLock.Flag = lockCommand.Flag & 0x12
+		if aofFlag&AOF_FLAG_UPDATED == 0 {
+			// the record of the grant itself (or the first, delayed record of a hold): it is the hold's LOCK
+			// record, not the record of an update, even when the request carried the update flag (granted on
+			// a free key) - compaction must not judge it as an update that may have been superseded
+			aofLock.Flag &^= protocol.LOCK_FLAG_UPDATE_WHEN_LOCKED
+		}
 	} else {
 		aofLock.Flag = 0
 	}
